@@ -88,7 +88,11 @@ def run(A, R: Report, thorough: bool):
         R.violation('R19.2', 'MockTask.value', key_of('mock-value-inherited'), 'MockTask no longer overrides `value`: the supplied value is served through Task.value / Task.data, so force() / reset_data() drop it and the next request tries to run the mock',
                     where=where(finit))
         R.ok('R19.2', 'MockTask.value: effects', 'not applicable', where=where(finit))
-    tv = A.sym.func_term(fval, ('inst', mock)) if fval is not None else ('opaque', 'no value')
+    A.sym.keep_copies = True       # a copy of the supplied object is another object than the one a real upstream task hands to all its consumers
+    try:
+        tv = A.sym.func_term(fval, ('inst', mock)) if fval is not None else ('opaque', 'no value')
+    finally:
+        A.sym.keep_copies = False
     stored = [n for n in A.typer.own_nodes(finit) if isinstance(n, ast.Assign) and isinstance(n.targets[0], ast.Attribute) and src(n.value) == finit.params[1]]
     field = stored[0].targets[0].attr if stored else None
     if fval is not None:
